@@ -37,10 +37,12 @@ DefaultTy == "FLOAT"    \* the tensor the harness attaches by default: float32[1
 DefaultSh == <<1>>
 
 \* ---- tensor implementation kinds (op SetTensor): what the abstract state knows about each -----
+\* "npT": an array-backed tensor over a transposed (Fortran-contiguous) 2 x 3 array - its bytes in memory are
+\* not in the logical (row-major) order serialization must produce
 KindTy(k) == CASE k = "np" -> "FLOAT" [] k = "lazy" -> "INT64" [] k = "packed" -> "INT4"
-               [] k = "proto" -> "INT32" [] k = "string" -> "STRING" [] OTHER -> "FLOAT"
+               [] k = "proto" -> "INT32" [] k = "string" -> "STRING" [] k = "npT" -> "INT16" [] OTHER -> "FLOAT"
 KindSh(k) == CASE k = "np" -> <<1>> [] k = "lazy" -> <<1, 3>> [] k = "packed" -> <<3>>
-               [] k = "proto" -> <<2>> [] k = "string" -> <<2>> [] OTHER -> <<1>>
+               [] k = "proto" -> <<2>> [] k = "string" -> <<2>> [] k = "npT" -> <<2, 3>> [] OTHER -> <<1>>
 KindTn(k) == IF k = "proto" THEN "tp" ELSE NoName
 
 \* ---- state ------------------------------------------------------------------------------------
